@@ -49,7 +49,7 @@ func doNew(c []byte, cexpr, class, note string) {
 	}
 	if !sampleAll {
 		// the Go-side oracle (cheap) sees every input; the Coq model (what costs) a deterministic
-		// hash sample of them: 1/20 in the quick tier, 1/8 in the thorough tier
+		// hash sample of them: 1/20 in the quick tier, 1/32 of the (ten times more) inputs of the thorough tier
 		h := uint32(2166136261)
 		for _, b := range c {
 			h = (h ^ uint32(b)) * 16777619
@@ -400,7 +400,7 @@ func main() {
 	rng := vh.NewRand(fl.Seed)
 	thorough := fl.Tier == "thorough"
 	if thorough {
-		sampleMod = 8
+		sampleMod = 32
 	}
 	tls, err := cfgx.LoadTLS(filepath.Join(filepath.Dir(fl.Out), "cfg_tls"))
 	if err != nil {
@@ -533,7 +533,7 @@ func main() {
 			if len(c) > 100 && !thorough && k > 60 && k < len(c)-16 && k%97 != 0 {
 				continue
 			}
-			if isMax[v.name] && !thorough && k > 12 && k < len(c)-6 {
+			if isMax[v.name] && k > 12 && k < len(c)-6 && (!thorough || (k > 60 && k%7 != 0)) {
 				continue
 			}
 			if len(c) > 5000 && k > 4 && k < len(c)-2 && (!thorough || k%9973 != 0) {
